@@ -1,5 +1,6 @@
 //! C16: per-pixel filter arithmetic — exhaustive 8-bit correspondence + generated parameters.
 use crate::util::*;
+use resvg::tiny_skia;
 use resvg::verif::filter as vf;
 use resvg::verif::filter::RGBA8;
 
@@ -166,7 +167,115 @@ fn rand_image(rng: &mut Rng, n: usize, premultiplied: bool) -> Vec<RGBA8> {
         .collect()
 }
 
+/// document level: generated content under generated filter chains - region, validity, identity chains
+fn document_level(tier: &str, seed: u64, s: &mut Search) {
+    let mut rng = Rng::new(seed ^ 0x5EA7C16D);
+    let n = (if tier == "thorough" { 3000 } else { 300 }) * budget_mult();
+    let o = crate::corpus::opts_for(None);
+    // primitives that are mathematically the identity on their input (sRGB interpolation)
+    let ident = |rng: &mut Rng, input: &str, res: &str| -> String {
+        let r = if res.is_empty() { String::new() } else { format!(r#" result="{}""#, res) };
+        let i = if input.is_empty() { String::new() } else { format!(r#" in="{}""#, input) };
+        match rng.below(8) {
+            0 => format!(r#"<feOffset{i} dx="0" dy="0"{r}/>"#),
+            1 => format!(r#"<feGaussianBlur{i} stdDeviation="0"{r}/>"#),
+            2 => format!(r#"<feMerge{r}><feMergeNode{i}/></feMerge>"#),
+            3 => format!(r#"<feColorMatrix{i} type="matrix" values="1 0 0 0 0 0 1 0 0 0 0 0 1 0 0 0 0 0 1 0"{r}/>"#),
+            4 => format!(r#"<feComponentTransfer{i}{r}><feFuncR type="identity"/><feFuncG type="linear" slope="1" intercept="0"/><feFuncB type="gamma" amplitude="1" exponent="1" offset="0"/><feFuncA type="table" tableValues="0 1"/></feComponentTransfer>"#),
+            5 => format!(r#"<feColorMatrix{i} type="saturate" values="1"{r}/>"#),
+            6 => format!(r#"<feColorMatrix{i} type="hueRotate" values="0"{r}/>"#),
+            _ => format!(r#"<feComposite{i} in2="zz-transparent" operator="over"{r}/>"#),
+        }
+    };
+    for i in 0..n {
+        let (w, h) = (rng.range(40, 90) as u32, rng.range(40, 90) as u32);
+        let mut g = crate::gen::Gen::new(&mut rng, crate::gen::Cfg::plain(w, h));
+        let mut content = String::new();
+        for _ in 0..1 + g.rng.below(3) {
+            content += &g.shape();
+        }
+        let defs0 = g.defs();
+        // an integer region well inside the canvas (positive offsets: see the tiny-skia finding of C14)
+        let (rx, ry) = (g.rng.range(2, 15), g.rng.range(2, 15));
+        let (rw, rh) = (g.rng.range(10, w as i64 - rx - 2), g.rng.range(10, h as i64 - ry - 2));
+        let scale = *g.rng.pick(&[1i64, 1, 2]);
+        let rng = &mut *g.rng;
+        let identity_chain = i % 2 == 0;
+        let mut prims = String::from(r#"<feFlood flood-opacity="0" result="zz-transparent"/>"#);
+        if identity_chain {
+            // identity primitives wired through named results; decoys reuse names BEFORE the real producer,
+            // unknown names fall back to the previous result
+            let names = ["a", "b", "a", "c"];
+            let mut last: Option<String> = None; // name carrying the (unchanged) source
+            let len = 1 + rng.below(5);
+            for k in 0..len {
+                let name = names[rng.below(4) as usize].to_string();
+                if rng.chance(1, 3) && last.as_deref() != Some(name.as_str()) {
+                    // decoy: something visible under the same name, overwritten by the next producer
+                    prims += &format!(r#"<feFlood flood-color="red" result="{}"/>"#, name);
+                }
+                let input = match (&last, rng.below(4)) {
+                    (None, _) => "SourceGraphic".to_string(),
+                    (Some(l), 0) | (Some(l), 1) => l.clone(),
+                    (Some(_), _) if k > 0 && rng.chance(1, 2) => "SourceGraphic".to_string(),
+                    (Some(l), _) => l.clone(),
+                };
+                prims += &ident(rng, &input, &name);
+                last = Some(name);
+            }
+            // the last primitive's result is the filter result; make sure it is the identity one
+            prims += &ident(rng, last.as_deref().unwrap_or("SourceGraphic"), "");
+        } else {
+            let mut results = vec![];
+            let mut gg = crate::gen::Gen::new(rng, crate::gen::Cfg::full(w, h));
+            for _ in 0..1 + gg.rng.below(4) {
+                prims += &gg.primitive(&mut results);
+            }
+        }
+        let ci = if identity_chain || rng.chance(1, 2) { "sRGB" } else { "linearRGB" };
+        let hdr = format!(r#"<svg xmlns="http://www.w3.org/2000/svg" xmlns:xlink="http://www.w3.org/1999/xlink" width="{}" height="{}" viewBox="0 0 {w} {h}">"#, w as i64 * scale, h as i64 * scale);
+        let filtered = format!(
+            r##"{hdr}<defs>{defs0}<filter id="zf" filterUnits="userSpaceOnUse" x="{rx}" y="{ry}" width="{rw}" height="{rh}" color-interpolation-filters="{ci}">{prims}</filter></defs><g filter="url(#zf)">{content}</g></svg>"##
+        );
+        let (cw, ch) = ((w as i64 * scale) as u32, (h as i64 * scale) as u32);
+        let Ok(Ok(t)) = crate::pan::catch(|| usvg::Tree::from_str(&filtered, &o)) else { continue };
+        let Ok(Some(pf)) = crate::pan::catch(|| crate::rend::render(&t, cw, ch, tiny_skia::Transform::identity())) else { continue };
+        let class = if identity_chain { "doc-identity-chain" } else { "doc-random-chain" };
+        s.case(class, &filtered, pf.data().chunks(4).any(|p| p[3] != 0));
+        // validity
+        if let Some((x, y, p)) = crate::rend::all_valid_premultiplied(&pf) {
+            s.finding("oracle:document:channel>alpha", &format!("pixel ({},{}) = {:?} is not valid premultiplied RGBA", x, y, p), &filtered);
+            continue;
+        }
+        // region (device space: the region scaled by the root scale)
+        let (x0, y0, x1, y1) = ((rx * scale) as u32, (ry * scale) as u32, ((rx + rw) * scale) as u32, ((ry + rh) * scale) as u32);
+        let mut outside = None;
+        for y in 0..ch {
+            for x in 0..cw {
+                if (x < x0 || x >= x1 || y < y0 || y >= y1) && pf.data()[((y * cw + x) * 4 + 3) as usize] != 0 {
+                    outside = Some((x, y));
+                }
+            }
+        }
+        if let Some((x, y)) = outside {
+            s.finding("oracle:document:paint-outside-region", &format!("pixel ({},{}) outside the filter region {}..{} x {}..{} is painted", x, y, x0, x1, y0, y1), &filtered);
+            continue;
+        }
+        if identity_chain {
+            // inside the region the image equals the unfiltered content
+            let plain = format!(r##"{hdr}<defs>{defs0}<clipPath id="zc"><rect x="{rx}" y="{ry}" width="{rw}" height="{rh}"/></clipPath></defs><g clip-path="url(#zc)"><g>{content}</g></g></svg>"##);
+            let Ok(Ok(tp)) = crate::pan::catch(|| usvg::Tree::from_str(&plain, &o)) else { continue };
+            let Ok(Some(pp)) = crate::pan::catch(|| crate::rend::render(&tp, cw, ch, tiny_skia::Transform::identity())) else { continue };
+            let (ok, why) = crate::rend::similar(&pp, &pf, 2);
+            if !ok {
+                s.finding("oracle:document:identity-chain-not-noop", &format!("a chain of identity primitives changed the image inside the region: {}", why), &filtered);
+            }
+        }
+    }
+}
+
 pub fn search(tier: &str, seed: u64, s: &mut Search) {
+    document_level(tier, seed, s);
     let mut rng = Rng::new(seed ^ 0x5EA7C16);
     let mult = budget_mult();
     let n = (if tier == "thorough" { 6000 } else { 600 }) * mult;
